@@ -244,23 +244,23 @@ func (r *h3eRelay) Close() {
 // ---------- generated exchanges ----------
 
 type h3eSpec struct {
-	id         int
-	method     string
-	query      string
-	reqHdr     [][2]string
-	reqBody    []byte
-	reqChunks  []int
-	reqDeclCL  bool
-	reqTrailer [][2]string
-	status     int
-	early      bool
-	respHdr    [][2]string
-	respBody   []byte
-	respChunks []int
-	respDeclCL bool
-	respTrDecl [][2]string
+	id           int
+	method       string
+	query        string
+	reqHdr       [][2]string
+	reqBody      []byte
+	reqChunks    []int
+	reqDeclCL    bool
+	reqTrailer   [][2]string
+	status       int
+	early        bool
+	respHdr      [][2]string
+	respBody     []byte
+	respChunks   []int
+	respDeclCL   bool
+	respTrDecl   [][2]string
 	respTrUndecl [][2]string
-	gzip       bool
+	gzip         bool
 }
 
 func h3eShort(hs [][2]string) string {
@@ -751,12 +751,12 @@ func h3eReqHeaders(path string, extra ...string) []byte {
 }
 
 type h3eRawResult struct {
-	status   string // ":status" of the response, "" if none
-	body     []byte
-	readErr  error
-	connErr  error // error the connection died with (nil if alive at the end)
-	appCode  int64 // application error code of connErr, -1 if none
-	strCode  int64 // stream error code of readErr, -1 if none
+	status  string // ":status" of the response, "" if none
+	body    []byte
+	readErr error
+	connErr error // error the connection died with (nil if alive at the end)
+	appCode int64 // application error code of connErr, -1 if none
+	strCode int64 // stream error code of readErr, -1 if none
 }
 
 // h3eReadResponse parses HEADERS (+DATA*) from a raw stream.
